@@ -1,4 +1,5 @@
 import HypatiaModel.Spec.CqeSpec
+import HypatiaModel.CqeExec
 import Driver.Sess
 /-!
 Session `cqe` (C10).  Strings travel as hex code points joined by `.` (empty string = empty token
@@ -475,25 +476,9 @@ def showRes : Except Err W → String
 structure St where
   cat : List String := []
 
-mutual
-def resolveAll (names : Names) : W → Except Err W
-  | .and qs => do
-    let l ← resolveList names qs
-    pure (.and l)
-  | .or qs => do
-    let l ← resolveList names qs
-    pure (.or l)
-  | .not q => do
-    let q' ← resolveAll names q
-    pure (.not q')
-  | w => resolveLeaf names w
-def resolveList (names : Names) : List W → Except Err (List W)
-  | [] => .ok []
-  | q :: qs => do
-    let q' ← resolveAll names q
-    let qs' ← resolveList names qs
-    pure (q' :: qs')
-end
+/-- the parsed object with every leaf resolved: `resolveTree` of `HypatiaModel/CqeExec.lean`, the definition
+`c10_resolution_is_substitution` / `c10_parse_substitute_execute` are about -/
+def resolveAll (names : Names) (w : W) : Except Err W := resolveTree names w
 
 /-- `rerun`: successive executions of one object (`execSeq`) -/
 def rerunOut (spy : Bool) (w : W) (ns : List Names) : String :=
